@@ -331,7 +331,7 @@ def cases(tier, seed):
             e = X.fill(s, lit_leaves)
             yield {"ctx": "assign", "e": e}
     if tier == "thorough":
-        for s in X.shapes(4, ["^", "AND", "OR", "-"], ["-", "NOT"]):
+        for s in X.shapes(4, X.ARITH + X.LOGIC, ["-", "NOT"]):
             e = X.fill(s, NUM_LEAVES)
             yield {"ctx": "assign", "e": e}
     # explicit parentheses at every position of small shapes
@@ -447,7 +447,7 @@ def cases(tier, seed):
             for ctx in STR_CONTEXTS:
                 yield {"ctx": ctx, "e": e}
     # 5. seeded random trees beyond the bound
-    nrand = 1500 if tier == "quick" else 40000
+    nrand = 1500 if tier == "quick" else 150000
     rng = random.Random(99991 * (seed + 1))
     g = X.ExprGen(rng, num_arrays=[("X", 1)])
     for i in range(nrand):
